@@ -124,7 +124,7 @@ PROPS = {
         'kani_thorough': [],
         'trusted': [
             'rust-bitcoin Script predicates == the byte templates of unit script_btc (is_op_return/p2pk/p2pkh/p2sh/p2wpkh/p2wsh/p2tr/is_witness_program, Address::from_script decision): validated against the real crate by Kani over all scripts up to the template length (lane K)',
-            'Script::is_multisig (m-of-n template) and the Instructions iterator: CBMC cannot execute them -- TRUSTED contracts',
+            'Script::is_multisig (rust-bitcoin: OP_m, k pushes, one opcode, OP_CHECKMULTISIG, m <= k, k == n only compared when that opcode is OP_n) and the Instructions iterator: CBMC cannot execute them -- TRUSTED contracts; the numeric-n requirement the property adds is proved on the repository\'s own helper multisig_key_count_is_numeric (repair 5fab036) and replayed by lane N\'s independent template matcher',
             'Address Display / to_string (Base58Check, Bech32, Bech32m text, prefix, checksum): rust-bitcoin encoders, trusted; the proof fixes WHICH hash / witness program and network reach them',
             'hash160 primitive (uninterpreted)',
         ],
